@@ -94,12 +94,23 @@ func (h *fileHistory) Write(s string) (int, error) {
 		return h.Len(), err
 	}
 
-	f, err := os.OpenFile(h.file, os.O_APPEND|os.O_CREATE|os.O_WRONLY, 0o600)
+	f, err := os.OpenFile(h.file, os.O_APPEND|os.O_CREATE|os.O_RDWR, 0o600)
 	if err != nil {
 		return 0, fmt.Errorf("%w: %s", errOpenHistoryFile, err.Error())
 	}
 
-	_, err = f.Write(append(data, '\n'))
+	data = append(data, '\n')
+
+	// If a previous write was cut short, the file does not end with a newline:
+	// end that line first, so that this record starts on a line of its own.
+	if info, serr := f.Stat(); serr == nil && info.Size() > 0 {
+		last := make([]byte, 1)
+		if _, rerr := f.ReadAt(last, info.Size()-1); rerr == nil && last[0] != '\n' {
+			data = append([]byte{'\n'}, data...)
+		}
+	}
+
+	_, err = f.Write(data)
 	f.Close()
 
 	return h.Len(), err
